@@ -151,25 +151,7 @@ impl Writer {
             }
 //@hint before#2 <<<Ok(large_descendants)>>>
         proof { assert(done =~= ins0); }
-//@spec
-    requires
-        concurrent_node_ids.covers(self.index),
-        cap_of(options, self.dimensions) >= 1,
-        tree_keys_ok(old(wtxn).view(), self.index),
-        forest(tmap(old(wtxn).view(), self.index), roots@),
-        leaves_same_len(old(wtxn).view(), self.index),
-        // the ids to insert are stored items that are in none of the trees yet
-        forall|id: u32| to_insert@.contains(id) ==> old(wtxn).view().contains_key(ikey(self.index, id)),
-        forall|k: int| 0 <= k < roots@.len() ==> to_insert@.disjoint(titems(tmap(old(wtxn).view(), self.index), tn(#[trigger] roots@[k]))),
-    ensures
-        r matches Ok(large) ==> tree_keys_ok(final(wtxn).view(), self.index)
-            && (roots@.len() == 0 ==> final(wtxn).view() == old(wtxn).view() && large@ == Set::<u32>::empty())
-            // C01 / C15 / C13: every tree gains exactly the ids (no node lost, no orphan, fresh ids for new nodes), and every
-            // bucket written over the capacity is queued under its own tree id
-            && (roots@.len() > 0 ==> iict_inv(tmap(old(wtxn).view(), self.index), tmap(final(wtxn).view(), self.index), roots@, to_insert@, large@, cap_of(options, self.dimensions))),
-        r matches Err(e) ==> build_err(e),
-        // C07: whatever happens, only tree nodes of this index are written
-        same_except(old(wtxn).view(), final(wtxn).view(), self.index, true, false, false, false),
+//@specfile lib/contracts/insert_items_in_current_trees.spec
 //@end
 }
 } // verus!
